@@ -26,6 +26,7 @@ import (
 func init() {
 	extractors["C18"] = func(e *ext) {
 		c18MoreFacts(e)
+		c18PoolFacts(e)
 		d := "pkg/descheduler/framework/plugins/loadaware"
 		e.constInt(d, "MinResourcePercentage", "MinResourcePercentage")
 		e.constInt(d, "MaxResourcePercentage", "MaxResourcePercentage")
@@ -306,4 +307,236 @@ func c18MoreFacts(e *ext) {
 	sort.Strings(topUse)
 	fmt.Fprintf(&e.out, "def detectorCacheUse : List String := %s\n", c18LeanList(topUse))
 	fmt.Fprintf(&e.out, "def continueCondCaches : List String := %s\n", c18LeanList(closureCaches))
+}
+
+// ---- several node pools (extension round 2) ----
+//   - Convert_v1alpha2_LowNodeLoadArgs_To_config_LowNodeLoadArgs: where the implicit pool goes in `out.NodePools = append(…)`
+//     ("default-first" / "default-last" / "other") and the pool's Name literal,
+//   - defaultLoadAnomalyCondition numbers; the nil / == 0 tests of the if / else-if chain on obj.AnomalyCondition in
+//     SetDefaults_LowNodeLoadArgs; the pool fields SetDefaults_LowNodeLoadNodePools inherits when nil,
+//   - filterNodes: whether a `nodeSelector == nil` test returns early, and whether the range body skips
+//     `processedNodes.Has(…)` with `continue` at its top level (for every pool),
+//   - processOneNodePool: the slices whose elements are inserted into processedNodes, and that those loops follow the
+//     evictPodsFromSourceNodes call; Balance: processedNodes is created before the loop over the pools.
+func c18PoolFacts(e *ext) {
+	dv := "pkg/descheduler/apis/config/v1alpha2"
+	dl := "pkg/descheduler/framework/plugins/loadaware"
+	exprStr := func(x ast.Expr) string {
+		switch v := x.(type) {
+		case *ast.Ident:
+			return v.Name
+		case *ast.SelectorExpr:
+			if id, ok := v.X.(*ast.Ident); ok {
+				return id.Name + "." + v.Sel.Name
+			}
+		}
+		return "?"
+	}
+	hasIdent := func(n ast.Node, name string) bool {
+		found := false
+		ast.Inspect(n, func(m ast.Node) bool {
+			if id, ok := m.(*ast.Ident); ok && id.Name == name {
+				found = true
+			}
+			return true
+		})
+		return found
+	}
+	// ---- conversion
+	shape, poolName := "missing", ""
+	if fd := e.funcDecl(dv, "", "Convert_v1alpha2_LowNodeLoadArgs_To_config_LowNodeLoadArgs"); fd != nil && fd.Body != nil {
+		poolVar := ""
+		ast.Inspect(fd.Body, func(n ast.Node) bool {
+			as, ok := n.(*ast.AssignStmt)
+			if !ok || len(as.Lhs) != 1 || len(as.Rhs) != 1 {
+				return true
+			}
+			if cl, ok := as.Rhs[0].(*ast.CompositeLit); ok {
+				if se, ok := cl.Type.(*ast.SelectorExpr); ok && se.Sel.Name == "LowNodeLoadNodePool" {
+					poolVar = exprStr(as.Lhs[0])
+					for _, el := range cl.Elts {
+						if kv, ok := el.(*ast.KeyValueExpr); ok && exprStr(kv.Key) == "Name" {
+							if bl, ok := kv.Value.(*ast.BasicLit); ok {
+								if s, err := strconv.Unquote(bl.Value); err == nil {
+									poolName = s
+								}
+							}
+						}
+					}
+				}
+			}
+			if exprStr(as.Lhs[0]) == "out.NodePools" {
+				if c, ok := as.Rhs[0].(*ast.CallExpr); ok && exprStr(c.Fun) == "append" && len(c.Args) == 2 && poolVar != "" {
+					switch {
+					case c.Ellipsis != token.NoPos && exprStr(c.Args[1]) == "out.NodePools" && hasIdent(c.Args[0], poolVar) && !hasIdent(c.Args[0], "out"):
+						shape = "default-first"
+					case c.Ellipsis == token.NoPos && exprStr(c.Args[0]) == "out.NodePools" && exprStr(c.Args[1]) == poolVar:
+						shape = "default-last"
+					default:
+						shape = "other"
+					}
+				} else {
+					shape = "other"
+				}
+			}
+			return true
+		})
+	}
+	fmt.Fprintf(&e.out, "def convertAppendShape : String := %s\n", leanStr(shape))
+	fmt.Fprintf(&e.out, "def defaultPoolName : String := %s\n", leanStr(poolName))
+	// ---- defaults
+	abnNorm := []int64{-1, -1}
+	if v, ok := e.valueSpec(dv, "defaultLoadAnomalyCondition"); ok {
+		ast.Inspect(v, func(n ast.Node) bool {
+			if kv, ok := n.(*ast.KeyValueExpr); ok {
+				switch exprStr(kv.Key) {
+				case "ConsecutiveAbnormalities":
+					if x, ok := e.evalInt(dv, kv.Value, 0); ok {
+						abnNorm[0] = x
+					}
+				case "ConsecutiveNormalities":
+					if x, ok := e.evalInt(dv, kv.Value, 0); ok {
+						abnNorm[1] = x
+					}
+				}
+			}
+			return true
+		})
+	}
+	fmt.Fprintf(&e.out, "def defaultAnomaly : List Int := [%d, %d]\n", abnNorm[0], abnNorm[1])
+	condTest := func(x ast.Expr) string {
+		be, ok := x.(*ast.BinaryExpr)
+		if !ok || be.Op != token.EQL {
+			return "?"
+		}
+		rhs := "?"
+		switch r := be.Y.(type) {
+		case *ast.Ident:
+			rhs = r.Name
+		case *ast.BasicLit:
+			rhs = r.Value
+		}
+		if se, ok := be.X.(*ast.SelectorExpr); ok {
+			return se.Sel.Name + "==" + rhs
+		}
+		return "?"
+	}
+	var chain []string
+	if fd := e.funcDecl(dv, "", "SetDefaults_LowNodeLoadArgs"); fd != nil && fd.Body != nil {
+		for _, st := range fd.Body.List {
+			is, ok := st.(*ast.IfStmt)
+			if !ok || condTest(is.Cond) != "AnomalyCondition==nil" {
+				continue
+			}
+			for cur := is; cur != nil; {
+				chain = append(chain, condTest(cur.Cond))
+				next, _ := cur.Else.(*ast.IfStmt)
+				if cur.Else != nil && next == nil {
+					chain = append(chain, "else")
+				}
+				cur = next
+			}
+		}
+	}
+	fmt.Fprintf(&e.out, "def topAnomalyChain : List String := %s\n", c18LeanList(chain))
+	var inherit []string
+	if fd := e.funcDecl(dv, "", "SetDefaults_LowNodeLoadNodePools"); fd != nil && fd.Body != nil {
+		ast.Inspect(fd.Body, func(n ast.Node) bool {
+			is, ok := n.(*ast.IfStmt)
+			if !ok {
+				return true
+			}
+			t := condTest(is.Cond)
+			if strings.HasSuffix(t, "==nil") && len(is.Body.List) == 1 {
+				if as, ok := is.Body.List[0].(*ast.AssignStmt); ok && len(as.Rhs) == 1 {
+					f := strings.TrimSuffix(t, "==nil")
+					if se, ok := as.Rhs[0].(*ast.SelectorExpr); ok && se.Sel.Name == f && exprStr(se.X) == "args" {
+						inherit = append(inherit, f)
+					}
+				}
+			}
+			return true
+		})
+	}
+	sort.Strings(inherit)
+	fmt.Fprintf(&e.out, "def poolInheritsWhenNil : List String := %s\n", c18LeanList(inherit))
+	// ---- filterNodes
+	nilReturns, hasSkip := false, false
+	if fd := e.funcDecl(dl, "", "filterNodes"); fd != nil && fd.Body != nil {
+		for _, st := range fd.Body.List {
+			switch s := st.(type) {
+			case *ast.IfStmt:
+				if condTest(s.Cond) == "?" {
+					if be, ok := s.Cond.(*ast.BinaryExpr); ok && be.Op == token.EQL && exprStr(be.X) == "nodeSelector" && exprStr(be.Y) == "nil" {
+						if len(s.Body.List) > 0 {
+							if _, ok := s.Body.List[len(s.Body.List)-1].(*ast.ReturnStmt); ok {
+								nilReturns = true
+							}
+						}
+					}
+				}
+			case *ast.RangeStmt:
+				for _, b := range s.Body.List {
+					if is, ok := b.(*ast.IfStmt); ok {
+						if c, ok := is.Cond.(*ast.CallExpr); ok && exprStr(c.Fun) == "processedNodes.Has" && len(is.Body.List) == 1 {
+							if br, ok := is.Body.List[0].(*ast.BranchStmt); ok && br.Tok == token.CONTINUE {
+								hasSkip = true
+							}
+						}
+					}
+				}
+			}
+		}
+	} else {
+		e.fail("filterNodes not found")
+	}
+	fmt.Fprintf(&e.out, "def filterNodesNilSelectorReturns : Bool := %v\n", nilReturns)
+	fmt.Fprintf(&e.out, "def filterNodesSkipsProcessed : Bool := %v\n", hasSkip)
+	// ---- processedNodes.Insert loops / Balance
+	var inserts []string
+	afterEvict := true
+	if fd := e.funcDecl(dl, "LowNodeLoad", "processOneNodePool"); fd != nil && fd.Body != nil {
+		evictPos := token.NoPos
+		for _, st := range fd.Body.List {
+			if es, ok := st.(*ast.ExprStmt); ok {
+				if c, ok := es.X.(*ast.CallExpr); ok && exprStr(c.Fun) == "evictPodsFromSourceNodes" {
+					evictPos = st.Pos()
+				}
+			}
+			rs, ok := st.(*ast.RangeStmt)
+			if !ok {
+				continue
+			}
+			ins := false
+			ast.Inspect(rs.Body, func(n ast.Node) bool {
+				if c, ok := n.(*ast.CallExpr); ok && exprStr(c.Fun) == "processedNodes.Insert" {
+					ins = true
+				}
+				return true
+			})
+			if ins {
+				inserts = append(inserts, exprStr(rs.X))
+				if evictPos == token.NoPos || rs.Pos() < evictPos {
+					afterEvict = false
+				}
+			}
+		}
+	}
+	fmt.Fprintf(&e.out, "def processedInsertLoops : List String := %s\n", c18LeanList(inserts))
+	fmt.Fprintf(&e.out, "def processedInsertAfterEvict : Bool := %v\n", afterEvict && len(inserts) > 0)
+	shared := false
+	if fd := e.funcDecl(dl, "LowNodeLoad", "Balance"); fd != nil && fd.Body != nil {
+		declared := false
+		for _, st := range fd.Body.List {
+			if as, ok := st.(*ast.AssignStmt); ok && len(as.Lhs) == 1 && exprStr(as.Lhs[0]) == "processedNodes" && as.Tok == token.DEFINE {
+				declared = true
+			}
+			if rs, ok := st.(*ast.RangeStmt); ok && declared && hasIdent(rs.Body, "processedNodes") && strings.HasSuffix(exprStr(rs.X), "?") {
+				if se, ok := rs.X.(*ast.SelectorExpr); ok && se.Sel.Name == "NodePools" {
+					shared = true
+				}
+			}
+		}
+	}
+	fmt.Fprintf(&e.out, "def processedSharedByPools : Bool := %v\n", shared)
 }
